@@ -26,6 +26,8 @@ from . import _an
 from . import C09 as S
 
 PROP = "C10"
+# obligations of the properties this one is downstream of are obligations of this check too (vk.runner.collect_obligations)
+UPSTREAM = ["C05"]
 GEN_REGIONS = ["Attrs"]
 THEOREMS = {
     "SpecKitV.Props.AttrsB": ["Gxx_dev_formula", "Gyy_dev_formula", "Gxy_dev_formula", "Hxy_dev_formula", "coh_dev_formula",
